@@ -382,10 +382,8 @@ fn caught_equals_uncaught(ctx: &Ctx, report: &mut Report) -> (usize, usize) {
     (n, bad)
 }
 
-/// compile errors name the line of the offending token: one stray token injected before every
-/// statement of a valid multi-line program
-fn compile_error_lines(ctx: &Ctx, report: &mut Report) -> usize {
-    let base: Vec<&str> = vec![
+fn base_lines() -> Vec<&'static str> {
+    vec![
         "// a comment line",
         "var a = 1;",
         "var text = \"a string",
@@ -415,7 +413,13 @@ fn compile_error_lines(ctx: &Ctx, report: &mut Report) -> usize {
         "  print(e);",
         "}",
         "print(a);",
-    ];
+    ]
+}
+
+/// compile errors name the line of the offending token: one stray token injected before every
+/// statement of a valid multi-line program
+fn compile_error_lines(ctx: &Ctx, report: &mut Report) -> usize {
+    let base = base_lines();
     // statement starts (index into `base`, 0-based) where a new statement may begin
     let starts = [1usize, 2, 5, 7, 8, 9, 11, 13, 15, 17, 20, 21, 23, 24, 26, 28];
     let strays = [")", "]", "catch", "else", "in", "finally", ":", ",", "=", "==", ".", "..", "*", "as"];
@@ -462,6 +466,103 @@ fn compile_error_lines(ctx: &Ctx, report: &mut Report) -> usize {
     n
 }
 
+/// An import that fails because the module does not compile reports the module's compile error - module
+/// name, line of the offending token, the token - every time it is attempted: at top level, in a function,
+/// in a fiber, under an alias, after a successful import of another module, uncaught at the end, and once
+/// more by a second program on the same interpreter.  Missing modules likewise.
+fn import_error_messages(ctx: &Ctx, report: &mut Report) -> usize {
+    let base = base_lines();
+    let starts = [1usize, 5, 8, 13, 17, 21, 24, 28];
+    let strays = [")", "catch", "=", "..", "as"];
+    let mut cases: Vec<(String, usize, String)> = Vec::new();
+    for &at in &starts {
+        for tk in strays {
+            let mut lines: Vec<String> = base.iter().map(|l| l.to_string()).collect();
+            lines.insert(at, tk.to_string());
+            cases.push((lines.join("\n") + "\n", at + 1, tk.to_string()));
+        }
+    }
+    let main = [
+        "fn load() { import \"bad\"; return bad; }",
+        "fn report(e) { print(type(e)); print(e.context); }",
+        "try { import \"bad\"; } catch e { report(e); }",
+        "try { load(); } catch e { report(e); }",
+        "import \"good\";",
+        "try { import \"bad\" as other; } catch e { report(e); }",
+        "Fiber.new(|| { try { import \"bad\"; } catch e { report(e); } }).call();",
+        "try { import \"nowhere\"; } catch e { report(e); }",
+        "try { load(); } catch e { report(e); }",
+        "try { import \"nowhere\"; } catch e { report(e); }",
+        "try { print(bad); } catch e { print(type(e)); }",
+        "import \"bad\";",
+    ]
+    .join("\n")
+        + "\n";
+    let n = cases.len();
+    let main_ref = &main;
+    let results = par_map(&ctx.runner_checked, ctx.workers.min(8), cases.into_iter(), |runner, _i, (module_src, line, tok)| {
+        let mut modules = BTreeMap::new();
+        modules.insert("bad".to_string(), module_src.clone());
+        modules.insert("good".to_string(), "var v = 1;\n".to_string());
+        let mut req = Request { op: "run".into(), snippets: vec![main_ref.clone(), "import \"bad\";\n".into(), "import \"nowhere\";\n".into()], modules, fuel: Some(1_000_000), ..Default::default() };
+        let obs = runner.call(&mut req);
+        let want_ctx = format!("Error compiling module:\n    [module \"bad\", line {}] Error at '{}'", line, tok);
+        let missing = "Unable to read file 'nowhere.yl' (file not found).";
+        let problem = (|| -> Option<String> {
+            let Some(r) = obs.resp() else { return Some(format!("run ended in {}", obs.describe())) };
+            if r.results.len() != 3 {
+                return Some(format!("{} results", r.results.len()));
+            }
+            let out = &r.results[0].out;
+            // seven reports of two lines each, then the probe
+            let expect_kinds = ["bad", "bad", "bad", "bad", "nowhere", "bad", "nowhere"];
+            if out.len() != expect_kinds.len() * 2 + 1 {
+                return Some(format!("printed {} lines: {:?}", out.len(), out));
+            }
+            for (k, which) in expect_kinds.iter().enumerate() {
+                if out[2 * k] != "<class ImportError>" {
+                    return Some(format!("failed import number {} raised {}", k + 1, out[2 * k]));
+                }
+                let text = &out[2 * k + 1];
+                let ok = if *which == "bad" { text.starts_with(&want_ctx) } else { text == missing };
+                if !ok {
+                    return Some(format!("failed import number {} (of `{}`) carries the message {:?}; expected {:?}", k + 1, which, text, if *which == "bad" { want_ctx.as_str() } else { missing }));
+                }
+            }
+            if out[expect_kinds.len() * 2] != "<class NameError>" {
+                return Some(format!("the failed import bound its name: {:?}", out.last()));
+            }
+            let want_first = "Unhandled ImportError: Error compiling module:";
+            let want_second = format!("    [module \"bad\", line {}] Error at '{}'", line, tok);
+            for (i, main_line) in [(0usize, 12usize), (1, 1)] {
+                match &r.results[i].outcome {
+                    proto::Outcome::Err { kind, messages } => {
+                        if kind != "ImportError" || messages.get(0).map(|m| m.as_str()) != Some(want_first) || !messages.get(1).map(|m| m.starts_with(&want_second)).unwrap_or(false) {
+                            return Some(format!("program {}: the uncaught import error is reported as {} {:?}", i + 1, kind, messages));
+                        }
+                        let want_trace = format!("[module \"main\", line {}] in script", main_line);
+                        if messages.last().map(|m| m.as_str()) != Some(want_trace.as_str()) {
+                            return Some(format!("program {}: trace {:?}, expected the last entry {:?}", i + 1, messages, want_trace));
+                        }
+                    }
+                    other => return Some(format!("program {}: ended with {:?}", i + 1, other)),
+                }
+            }
+            match &r.results[2].outcome {
+                proto::Outcome::Err { kind, messages } if kind == "ImportError" && messages.get(0).map(|m| m.as_str()) == Some(&format!("Unhandled ImportError: {}", missing)[..]) => None,
+                other => Some(format!("program 3: importing a missing module ended with {:?}", other)),
+            }
+        })();
+        (module_src, problem)
+    });
+    for (src, problem) in results {
+        if let Some(p) = problem {
+            report.violations.push((format!("[import error message] {}", p), json!({"family": "import_error_messages", "request": {"op": "run", "snippets": [main, "import \"bad\";\n", "import \"nowhere\";\n"], "modules": {"bad": src, "good": "var v = 1;\n"}}, "module_source": src, "problem": p})));
+        }
+    }
+    n
+}
+
 /// programs for C02: every uncaught-error program without modules (the error report itself must not
 /// panic, whatever was raised and handled before)
 pub fn sources_for_c02() -> Vec<String> {
@@ -481,13 +582,15 @@ pub fn run(ctx: &Ctx) -> Report {
     mcheck::fill_report(
         &mut report,
         &stats,
-        "R: every call chain of depth 0-3/4 over link kinds {function, method, static method, lambda, constructor, map callback, reduce callback, fiber body} with the failing statement (12 kinds: throws of 4 value kinds, 6 failing built-ins, throwing callees) at the bottom, in place, inside a module function or as a module body; one statement per line with padding so every line differs. Uncaught variant: class, text (where the model defines it), error kind and the full trace (one entry per active call, innermost first; library frames by name only) must equal M-eval's; caught variant: the handler sees the same class. The same with an earlier, completely handled exception (6 shapes: thrown and caught in place, thrown by a callee, raised by a built-in, caught after passing a finally block, caught in a loop, handled in another fiber that ran to its end) placed in each active frame of every chain up to depth 2/3 before the failing statement. The same with the call or failing statement at each position wrapped in one or two nested try/finally statements, so that the uncaught error passes through finally blocks (the report lists the calls still active when it is made, each with the line of the statement it was executing when the error was raised). Plus caught==uncaught on the implementation for 26 failing statements including host natives of every ErrorKind, and compile-error lines for a stray token before every statement. non-trivial = a trace of at least two entries, or output.",
+        "R: every call chain of depth 0-3/4 over link kinds {function, method, static method, lambda, constructor, map callback, reduce callback, fiber body} with the failing statement (12 kinds: throws of 4 value kinds, 6 failing built-ins, throwing callees) at the bottom, in place, inside a module function or as a module body; one statement per line with padding so every line differs. Uncaught variant: class, text (where the model defines it), error kind and the full trace (one entry per active call, innermost first; library frames by name only) must equal M-eval's; caught variant: the handler sees the same class. The same with an earlier, completely handled exception (6 shapes: thrown and caught in place, thrown by a callee, raised by a built-in, caught after passing a finally block, caught in a loop, handled in another fiber that ran to its end) placed in each active frame of every chain up to depth 2/3 before the failing statement. The same with the call or failing statement at each position wrapped in one or two nested try/finally statements, so that the uncaught error passes through finally blocks (the report lists the calls still active when it is made, each with the line of the statement it was executing when the error was raised). Plus caught==uncaught on the implementation for 26 failing statements including host natives of every ErrorKind, compile-error lines for a stray token before every statement, and the same for a module that does not compile: every attempt to import it (seven placements in one program, then two more programs on the same interpreter) reports ImportError with the module's name, the line and the token; a missing module likewise. non-trivial = a trace of at least two entries, or output.",
         json!({"chain_depth": if thorough { 4 } else { 3 }, "link_kinds": LINKS.len(), "failing_statements": FAILS.len()}),
     );
     let (n_ceq, _bad) = caught_equals_uncaught(ctx, &mut report);
     let n_lines = compile_error_lines(ctx, &mut report);
     report.cov("caught_equals_uncaught_pairs", json!(n_ceq));
     report.cov("compile_error_line_cases", json!(n_lines));
+    let n_imp = import_error_messages(ctx, &mut report);
+    report.cov("import_error_message_cases", json!(n_imp));
     report.assumptions = vec![
         "frames of the library written in the language itself are matched by function name and position only".into(),
         "a call that an exception has left by the time it is reported (it passed through a finally block of a caller) is not listed".into(),
